@@ -981,7 +981,8 @@ def gen_queue_fns():
     sys.path.insert(0, os.path.dirname(os.path.abspath(__file__)))
     import translate_queue
     try:
-        return translate_queue.gen(strip_comments(read("node/components/bft/src/lib.rs")))
+        return translate_queue.gen(strip_comments(read("node/components/bft/src/lib.rs")),
+                                   strip_comments(read("node/libs/concurrency/src/sync/prunable_mpsc/mod.rs")))
     except translate_queue.TErr as e:
         raise TranslateError(f"bft/src/lib.rs: {e}")
 
